@@ -26,6 +26,9 @@ def run(ctx):
     r23(ctx)
     r4(ctx)
     r5(ctx)
+    ctx.rule("C06.R6", "K4/K3", "(= C13.R7) a pool thread of the threaded worker always reads from a blocking socket: a request that arrives in several segments is waited for, whichever request of the connection it is")
+    from .c13 import blocking_mode
+    blocking_mode(ctx, "C06.R6")
 
 
 # ---------------------------------------------------------------------------- helpers
